@@ -1,5 +1,6 @@
 import Proofs.Ledger.NodesExamples
 import Proofs.Ledger.NodesSlash
+import Proofs.Ledger.NodesC22
 /-!
 # C25 — Slashing and jailing follow the documented rules
 
@@ -83,6 +84,19 @@ theorem jailed_not_in_staked_index (s : State) (hi : Inv s) (ops : List Op) (hop
   obtain ⟨w, hw, _, h2, _⟩ := ((inv_run hi ops hops).staked (p, a)).mp hm
   rw [hv] at hw; injection hw with hw; subst hw
   rw [hj] at h2; cases h2
+
+/-- Jailed nodes are removed from the consensus set: after every end-block (validator split active) every
+member of the set built from all reported updates is a staked, **unjailed** node holding the reported power. -/
+theorem jailed_not_in_consensus_set (s : State) (h2 : Inv2 s) (h t : Int) (hh : splitHeight ≤ h) (a : Addr) (p : Int)
+    (hm : aget (endBlock s h t).1.tmSet a = some p) :
+    ∃ v, aget (endBlock s h t).1.vals a = some v ∧ v.status = .staked ∧ v.jailed = false ∧ powerOf v.tokens = p := by
+  obtain ⟨_, sy⟩ := endBlock_outcome h2.inv h2.prev h t hh
+  rw [sy.tm a] at hm
+  obtain ⟨v, g1, g2, g3, g4, _⟩ := topN_member (inv_endBlock h2.inv h t) hm
+  exact ⟨v, g1, g2, g3, g4⟩
+
+/-- a node jailed for downtime disappears from the reported set at the next end-block (zero-power update) -/
+example : (endBlock (step Ex.s0 (.burn Ex.B 20000000)) 4 2000).2 = [⟨Ex.A, [1, 1], 20⟩, ⟨Ex.B, [2, 2], 0⟩] := by decide
 
 /-- An unjail message is accepted only from the operator or the output address, for a jailed node holding
 at least the minimum stake, once the jail period has passed in block time — and, as coded, also in the
